@@ -4,22 +4,24 @@ from symex.runner import Harness
 from symex.engine import PathEnd
 from props.zmq_u import *
 
-SLOTS = [('c1', 0), ('c2', 0), ('e1', 1)]
-REQ_FROM = [('c1', 0), ('c2', 0), ('e1', 1), ('c3', 0)]
+# two client populations: distinct client ids, or two live connections that share one client id (two replicas started from one config): the wait set is per connection
+SLOTS_V = [[('c1', 0, 'u'), ('c2', 0, 'u'), ('e1', 1, 'u')], [('c1', 0, 'u'), ('c1', 0, 'v'), ('e1', 1, 'u')]]
+REQ_FROM_V = [[('c1', 0, 'u'), ('c2', 0, 'u'), ('e1', 1, 'u'), ('c3', 0, 'u')], [('c1', 0, 'u'), ('c1', 0, 'v'), ('e1', 1, 'u'), ('c1', 0, 'w')]]
 
 
 def send_step(nreq, planted=None, timeout_choices=(0,)):
     def scenario(e):
+        variant = e.choice('population', 2); SLOTS = SLOTS_V[variant]; REQ_FROM = REQ_FROM_V[variant]
         s, model, now = build_sender(e, 1, False, SLOTS)
         pull = s.pulls[0]; pub = s.pubs[0]
         backlog = []
         for i in range(nreq):
             if not e.choice(f'havereq{i}', 2): break
-            cid, eph = REQ_FROM[e.choice(f'from{i}', len(REQ_FROM))]
+            cid, eph, uid = REQ_FROM[e.choice(f'from{i}', len(REQ_FROM))]
             kind = e.choice(f'kind{i}', 3)            # 0 request, 1 request flagged new, 2 CLOSE
             mid = Z.MSG_ID_CLOSE if kind == 2 else e.fresh_int(f'mid{i}', -1)
-            queue_request(s, 0, cid, mid, eph, new=(kind == 1))
-            backlog.append((cid + 'u', kind, eph))
+            queue_request(s, 0, cid, mid, eph, new=(kind == 1), uid=uid)
+            backlog.append((cid + uid, kind, eph))
         World.oracle = in_order_oracle
         has_state = e.choice('state', 2)
         state = Z.ZMQStateSend(e.fresh_int('state_id', 0)) if has_state else None
@@ -116,7 +118,7 @@ def harnesses(tier):
               'requests reach the publisher in per-connection FIFO order']
     hs = [
         Harness('c04.send_step', send_step(2 if q else 3), twin=send_step(2, planted='oracle'),
-                bounds={'clients in pre-state': '<=3 (2 sync, 1 ephemeral), requested flags free, t_last/prev_id/now/min_send_id unbounded Int',
+                bounds={'clients in pre-state': '<=3 (2 synchronized connections with distinct or with the SAME client id, 1 ephemeral), requested flags free, t_last/prev_id/now/min_send_id unbounded Int',
                         'queued requests': 2 if q else 3, 'request kinds': 'request / new / CLOSE, ids unbounded', 'send timeout': 0},
                 functions=fn, stubs=stubs, assumptions=assume, budget_s=900),
         Harness('c04.send_sequence', send_sequence(3 if q else 4), twin=send_sequence(1, planted=True),
